@@ -48,6 +48,7 @@ Version 'variants' are also supported, for example:
 
 # std
 import sys
+import types
 
 # xdis
 from xdis import IS_GRAAL, IS_PYPY
@@ -67,6 +68,16 @@ PYPY = "pypy"
 GRAAL = "Graal"
 VARIANT = PYPY if IS_PYPY else None
 VARIANT = GRAAL if IS_GRAAL else None
+
+
+_have_code = (
+    types.MethodType,
+    types.FunctionType,
+    types.CodeType,
+    classmethod,
+    staticmethod,
+    type,
+)
 
 
 class _StdApi:
@@ -210,6 +221,23 @@ class _StdApi:
         With no argument, disassemble the last traceback.
 
         """
+        if x is None:
+            self.distb(file=file)
+            return
+        if isinstance(x, (type, types.ModuleType)):
+            # A class or a module: disassemble every function it holds,
+            # the way dis.dis() does.
+            for name, member in sorted(x.__dict__.items()):
+                if isinstance(member, _have_code):
+                    self._print("Disassembly of %s:" % name, file)
+                    try:
+                        self.dis(member, file=file)
+                    except TypeError as msg:
+                        self._print("Sorry: %s" % msg, file)
+                    self._print("", file)
+            return
+        if isinstance(x, (staticmethod, classmethod)):
+            x = x.__func__
         self._print(self.Bytecode(x).dis(), file)
 
     def distb(self, tb=None, file=None):
